@@ -27,11 +27,11 @@ class TraceChecker:
         self.events = 0
         self.kf_switches = {f["switch"]: False for f in vlib.load_findings()
                             if f["property"] == ctx.pid and f.get("status") == "open" and f.get("switch")}
-        self.cfg_strict = write_cfg(os.path.join(wd, "trace_strict.cfg"), template, invariants,
+        self.cfg_strict = write_cfg(os.path.join(wd, "trace_strict_%s.cfg" % module), template, invariants,
                                     {k: False for k in self.kf_switches})
         self.cfg_kf = None
         if self.kf_switches:
-            self.cfg_kf = write_cfg(os.path.join(wd, "trace_kf.cfg"), template, invariants + " KfReport",
+            self.cfg_kf = write_cfg(os.path.join(wd, "trace_kf_%s.cfg" % module), template, invariants + " KfReport",
                                     {k: True for k in self.kf_switches})
 
     def _run(self, cfg, trace, tag):
